@@ -1,7 +1,8 @@
 SPECIFICATION TraceSpec
 CONSTANTS
-  Scenarios <- TNone
-  DevSets <- TDevSets
+  ScSeq <- TScSeq
+  Listed <- TListed
+  Force <- TForce
 CONSTRAINT Progress
 POSTCONDITION Report
 CHECK_DEADLOCK FALSE
